@@ -90,8 +90,12 @@ class PhaseGen:
             f = r.choice([f for f in (FUNCS if self.raising else FUNCS[:2] + FUNCS[3:])])
             n = lang.nres_of(f)
             xs = r.sample(TEMPS + ["<state>v"], n) if n else []
-            k = ["call", xs, f, [g.int_expr(1) for _ in range(r.randint(0, 2))],
-                 [["k", g.int_expr(1)]] if r.random() < 0.3 else []]
+            # arguments are kept small: a persistent result fed back through a product would square every step
+            # (run to t_end may take 40 steps), and Python integers then grow until the check stalls
+            def small(e):
+                return ["bin", "rem", e, ["int", 97]]
+            k = ["call", xs, f, [small(g.int_expr(1)) for _ in range(r.randint(0, 2))],
+                 [["k", small(g.int_expr(1))]] if r.random() < 0.3 else []]
             self.add(k)
             for x in xs:
                 self.mark(x, depth)
